@@ -1520,7 +1520,7 @@ STREAM_SIGS = {
 
 STREAM_HEADER = """/-
 GENERATED by tools/translate.py from `StreamTransport` (transport/__init__.py) of the aiomysensors working tree — do not edit.
-Regenerated on every check run of C03 / C17; rewritten only when its content changes.  A definition marked
+Regenerated on every check run of C03 / C16 / C17; rewritten only when its content changes.  A definition marked
 `-- snapshot` could not be translated on this run and is the last committed translation.
 -/
 import AioMySensors.Model.LitStream
